@@ -659,7 +659,7 @@ def rule_intpow(ctx):
   for fn in repo.all_funcs(include_examples=False):
     if fn.where.startswith("randomness_tests.") or fn.module.short.endswith("_test"):
       continue
-    if not any(isinstance(x, ast.Pow) for x in ast.walk(fn.node)):
+    if not any(isinstance(x, (ast.Pow, ast.LShift)) for x in ast.walk(fn.node)):
       continue
     w = sym.Walker(repo, fn)
     try:
@@ -682,6 +682,13 @@ def rule_intpow(ctx):
              and at.args[2].as_atom().kind == "seq":
             for i_ in range(len(at.args[2].as_atom().args)):        # the bound variable of a map atom is the position in its source
               flat.append(sym.rebuild(at.args[0].deep_subst(at.args[1], Poly.const(i_))))
+      # an element of a literal tuple of constants stands for each constant: 2 ** (x - (100, 128)[k])
+      for v in list(flat):
+        for at in v.all_atoms():
+          sa = at.args[0].as_atom() if at.kind == "idx" and len(at.args) == 2 and isinstance(at.args[0], Poly) else None
+          if sa is not None and sa.kind == "seq" and sa.args and all(isinstance(x_, Poly) and x_.as_int() is not None for x_ in sa.args) and as_poly(at.args[1]).as_int() is None:
+            for x_ in sa.args:
+              flat.append(sym.rebuild(v.deep_subst(at, x_)))
       for v in flat:
         for at in v.all_atoms():
           if at.kind != "pow" or len(at.args) != 2 or (as_poly(at.args[0]).as_int() or 0) < 2:
